@@ -206,7 +206,8 @@ def genotype(
         )
     if kind not in ["vcf", "pscan"]:
         avg_cov = sample.coverage.average_coverage()
-        if avg_cov < profile.min_avg_coverage:
+        # (a locus without any read is refused whatever the configured minimum is)
+        if avg_cov < profile.min_avg_coverage or avg_cov <= 0:
             if is_simple:
                 print(file=output_file)
             raise AldyException(
